@@ -1,5 +1,6 @@
 """C13 — Thread start/join, ThreadGroup, parallel_for, Semaphore, Condition: plugin for tools/check.py"""
 import os
+import random
 import re
 import subprocess
 import tempfile
@@ -280,12 +281,66 @@ def replay_case(lines, ctx):
     return False, "%s: PASS (%d injected schedules run)" % (want, ran)
 
 
+def condx_logs(ctx):
+    """(3b) timed waits that run out, waiters that give up or loop again: the log of the real threads' critical sections must be
+    accepted by the Lean model with time-outs and spurious wake-ups (AslModel/ThreadTimed.lean), and the model's outcome per waiter
+    must be the one the real waiter reported"""
+    tier = ctx["tier"]
+    rng = random.Random(int(os.environ.get("VERIF_SEED", "1")) * 7919 + 13)
+    scen = []
+    base = ["t", "l", "u", "tu", "lt", "ul", "tlu", "ttl", "ullt", "tttt", "lulu"]
+    for kinds in (base if tier == "quick" else base * 6 + ["tltltl", "uuuutt", "llllll", "tttttttt"] * 3):
+        delay = rng.choice([0, 0, 300, 3000, 12000, 25000])
+        tmo = rng.choice([1, 2, 5, 40])
+        scen.append("condx %s %d %d" % (kinds, delay, tmo))
+    out, crash, err = core.run_impl(ctx["exe"], scen, timeout=600)
+    stats = ctx["stats"]
+    if crash:
+        k = min(len(out), len(scen) - 1)
+        f = Failure("crash", [scen[k]], crash=crash, stderr=err[-4000:],
+                    clause="a waiter never returned (lost signal) or abnormal termination in the timed condition-variable protocol: " + crash)
+        f.name = "K(C13) timed condition protocol"
+        return [f]
+    fails = []
+    ops = []
+    for line, o in zip(scen, out):
+        kinds = line.split()[1]
+        tr = o.split("trace=", 1)[1] if "trace=" in o else ""
+        ops.append("ctrace %s %s" % (kinds, tr or "-"))
+    model = core.run_model(DRIVER, ops) if ops else []
+    ntmo = nspur = 0
+    for line, o, m in zip(scen, out, model):
+        kinds = line.split()[1]
+        got = o.split(" ")[0]                      # out=pt..
+        outc = got.split("=", 1)[1] if "=" in got else ""
+        ntmo += outc.count("t")
+        # property-level oracle first: a waiter returns with the predicate true, or because ITS OWN timed wait ran out and it gives up
+        bad = [i for i, ch in enumerate(outc) if not (ch == "p" or (ch == "t" and kinds[i] == "t"))]
+        if bad or len(outc) != len(kinds):
+            f = Failure("diverge", [line], [o[:400]], ["every waiter p, or t for a waiter of kind t"],
+                        clause="a waiter left the documented wait loop without the predicate and without a time-out of its own wait")
+            f.name = "K(C13) timed condition protocol"
+            fails.append(f)
+        elif m != "accept " + got and len(fails) < 4:
+            f = Failure("diverge", [line, "ctrace " + kinds + " " + o.split("trace=", 1)[-1]], ["(recorded from the implementation) " + got], [m],
+                        clause="the condition-variable model with time-outs and spurious wake-ups does not admit this log of the implementation: " + m)
+            f.name = "trace inclusion K(C13): lean/Driver/C13.lean CondX.accept"
+            f.has_input = False
+            fails.append(f)
+    stats["condx_logs_accepted_by_model"] = len(scen) - len(fails)
+    stats["condx_waiters_that_timed_out"] = ntmo
+    return fails[:4]
+
+
 def extra(ctx):
     """(4) interleavings at the hand-over points: enumerate on the real library, then every trace must be accepted by the model"""
     o3fails, o3ran = o3_schedules(ctx)
     ctx["stats"]["o3_injected_schedules_run"] = o3ran
     if o3fails:
         return o3fails
+    cxfails = condx_logs(ctx)
+    if cxfails:
+        return cxfails
     tier = ctx["tier"]
     budget = 400 if tier == "quick" else 50000
     scen = ["pfs 0 1 1 %d" % budget, "pfs 0 2 2 %d" % budget, "pfs -1 2 3 %d" % budget, "pfs 0 5 2 %d" % budget, "pfs 3 3 4 %d" % budget,
@@ -370,7 +425,12 @@ LEVEL_TEXT = ("Proved in Lean 4: for all integers i0, i1 and every nth >= 1 the 
               "the count is conserved in every interleaving and at quiescence the completed waits are exactly min(waits wanted, "
               "initial + posts) (semaphore_no_lost_post_n, semaphore_post_wakes); under the documented protocol a condition-variable "
               "waiter is never asleep after the signal and can always progress once the signaler is done, for one waiter and for any "
-              "number n of waiters with a broadcasting signal (condition_no_lost_signal, condition_no_lost_signal_n). Tie: the index "
+              "number n of waiters with a broadcasting signal (condition_no_lost_signal, condition_no_lost_signal_n); the same with "
+              "timed waits that may run out, waiters that give up or loop again, and wake-ups without a signal at any moment: no signal "
+              "is lost, nobody is blocked for ever, and a waiter written with the documented while loop leaves only with the predicate "
+              "true or on a time-out of its own timed wait (condition_timed_no_lost_signal, condition_wait_returns_only_with_predicate; "
+              "if_instead_of_while_unsafe shows what the loop is for); a semaphore used through post/wait/trywait/wait(timeout) conserves "
+              "its units whatever fails in between (semaphore_failed_attempts_take_nothing). Tie: the index "
               "loop, thread kinds and semaphore are compared op by op with the real library (all ranges -3..40 x nth), and every "
               "hook-point trace of the real creator/worker hand-over, enumerated over all interleavings of small scenarios by a "
               "deterministic scheduler, must be accepted by the Lean model (trace inclusion). Start fence and thread end (AslModel/"
@@ -389,8 +449,10 @@ LEVEL_TEXT = ("Proved in Lean 4: for all integers i0, i1 and every nth >= 1 the 
 LEVEL_NOTE = ("Thread copies and assignment share a reference-counted State_: modelled in `Copies` (any number of copies, any drop order: "
               "thread_copies_safe; the driver takes finished() of the kinds cpy, cpd, cpj, sst from it), at the level of the count and the "
               "flag — which C++ statements copy the state pointer is the reading of Thread.h that produced the model, checked by K at "
-              "free-running schedules only. No model, K only: the timed "
-              "Condition::wait(timeout) (`condt`; the condition theorems are about the untimed wait). fenced_handover_never_stale is a "
+              "free-running schedules only. The timed "
+              "Condition::wait(timeout) is modelled in AslModel/ThreadTimed.lean (time-outs and spurious wake-ups as moves of the environment); "
+              "tie: `condx` logs every step of real waiters and signaler under the mutex (time-outs do happen in those runs) and the log must "
+              "be accepted by the model with the same outcome per waiter (CondX.accept, trace inclusion); `condt` keeps the promptness oracle. fenced_handover_never_stale is a "
               "statement about what a barrier means in the model (the store is enabled only after the loads); its content for the code is "
               "the regenerated instruction-order obligation, checked on two probe instantiations with register aliases of the argument "
               "tracked and no non-stack load allowed between the barrier and the store. "
@@ -398,7 +460,7 @@ LEVEL_NOTE = ("Thread copies and assignment share a reference-counted State_: mo
               "that is covered only by the -O3 assembly check, the three injected -O3 schedules and the Fence model. "
               "Trusted: pthread/sem/cond semantics as modelled, sequential consistency of the volatile flags, the scheduler harness and "
               "the trace acceptor. The semaphore and condition models are abstractions of the POSIX primitives (asl only wraps them) "
-              "and of the user protocol; spurious wake-ups are not modelled (the documented while(!pred) loop absorbs them). The index "
+              "and of the user protocol; spurious wake-ups cannot be provoked in the harness: they are covered by the model (any wake-up without a signal is a move of the environment) only. The index "
               "theorems are over the mathematical integers; since the repair 14af174 the loop index and the range width are "
               "computed in 64 bits, so they describe the code for every int range. Copies of a started Thread share its finished flag (one flag per worker, as in the model): "
               "exercised by the thr cpy cases.")
